@@ -504,8 +504,12 @@ class Analyzer:
             if isinstance(s.op, ast.LShift):
                 # ndarray <<= unit rebinds the name to a Quantity *view*; a Quantity is converted
                 # in place.  A write iff the target may be a caller-owned Quantity.
-                if cur.kind != 'ndarray' and any(o.startswith(('P:', 'F:')) for o in cur.o):
-                    self.write(cur.o, s.lineno, 'in-place <<= (unit conversion of a Quantity)')
+                # Only a caller's own object can be a Quantity carrying another unit; values
+                # held in fields / lazy caches are unit-less arrays that get their unit attached
+                # here (assumption listed in tables.TRUSTED).
+                direct = {o for o in cur.o if o.startswith('P:') and not o.endswith('/')}
+                if cur.kind != 'ndarray' and direct:
+                    self.write(direct, s.lineno, 'in-place <<= (unit conversion of a Quantity)')
                 env[t.id] = AVal(cur.o, 'array', cur.c)
                 return
             if cur.kind == 'scalar':
@@ -899,6 +903,10 @@ class Analyzer:
                 # value of a (lazy) property = summary of its getter, seen from self
                 o = {x for x in m.ret.o if not x.startswith('P:')}
                 c = {x for x in m.ret.c if not x.startswith('P:')}
+                if m.is_lazy and m.ret.kind != 'scalar':
+                    # the cached value is part of the object's state: the same object is
+                    # returned by every later read (and re-sliced into child catalogs)
+                    o = (o - {FRESH}) | {f'F:{attr}'}
                 return AVal(o or {FRESH}, m.ret.kind, c, m.ret.ek)
             kinds = set()
             for k in fi.cls.mro(self.w):
